@@ -135,6 +135,12 @@ func (s *nullChunkSection) clone(dst *os.File, offset, length, blocksize uint64)
 	dstAlignStart := (offset/blocksize + 1) * blocksize
 	dstAlignEnd := (offset + length) / blocksize * blocksize
 
+	// Without a complete block in the range there's nothing to clone. Plain copy
+	// the nulls, the head below would otherwise run past the end of the range.
+	if dstAlignEnd <= dstAlignStart {
+		return s.copy(dst, offset, length)
+	}
+
 	// fill the area before the first aligned block
 	var copied, cloned uint64
 	c1, _, err := s.copy(dst, offset, dstAlignStart-offset)
